@@ -277,7 +277,13 @@ def run_store_case(ctx, c):
             elif op[0] == "del":
                 del ba[op[1]]
             else:
-                ba.merge_in(dict_from(op[1]))
+                src = dict_from(op[1])
+                # the source of a merge may itself be a store (with its own, looser limits): the TARGET's limits apply.
+                # Done when the source would hold the pairs unchanged (valid keys, plain values), so the model's operation is the same.
+                if src and len(outs) % 2 == 0 and all(
+                        isinstance(k, str) and k and type(v) in (str, int, bool, float) for k, v in src.items()):
+                    src = BoundedAttributes(attributes=src, immutable=(len(outs) % 3 == 0), max_value_len=None)
+                ba.merge_in(src)
             out = "Ok"
         except TypeError:
             out = "TypeError"
